@@ -14,6 +14,7 @@ import ISnap.Driver.SetCmd
 import ISnap.Driver.FinishCmd
 import ISnap.Driver.CallCmd
 import ISnap.Driver.SeqCmd
+import ISnap.Driver.NestCmd
 /-
   isnap-driver: one s-expression per line in, one per line out (DESIGN.md §3.7).
   Unknown or malformed input answers `(bad-op)`, never a default.
@@ -27,6 +28,7 @@ def handle (e : Sexp) : Sexp :=
   | .list (.atom "storage" :: rest) => (ExternalCmd.run rest).getD (.list [.atom "bad-op"])
   | .list (.atom "setsort" :: rest) => (SetCmd.run rest).getD (.list [.atom "bad-op"])
   | .list (.atom "callassign" :: rest) => (CallCmd.run rest).getD (.list [.atom "bad-op"])
+  | .list (.atom "nest" :: rest) => (NestCmd.run rest).getD (.list [.atom "bad-op"])
   | .list (.atom "seqedit" :: rest) => (SeqCmd.run rest).getD (.list [.atom "bad-op"])
   | .list (.atom "align" :: rest) => (AlignCmd.run rest).getD (.list [.atom "bad-op"])
   | .list (.atom c :: rest) =>
